@@ -1,9 +1,10 @@
-(* C08/Proofs.v -- lemmas and main proofs. *)
+(* C08/Proofs.v -- provenance: get_merge_map and nan_idx meet MergeMap_Spec. *)
 From Coq Require Import ZArith List Lia Bool Arith Sorted Permutation.
 From PV Require Import Base.NpSearch Base.NpSort Base.Tok Base.TokArith C08.Model C08.Spec.
 Import ListNotations.
 Open Scope Z_scope.
 
+(* ---------- np.unique ---------- *)
 Lemma ins_u_in x l z : In z (ins_u x l) <-> z = x \/ In z l.
 Proof.
   induction l as [|y r IH]; cbn [ins_u].
@@ -18,4 +19,244 @@ Lemma np_unique_in l z : In z (np_unique l) <-> In z l.
 Proof.
   induction l as [|x r IH]; cbn [np_unique fold_right]; [reflexivity|].
   fold (np_unique r). rewrite ins_u_in, IH. cbn. intuition.
+Qed.
+
+Lemma ins_u_sorted x l : Sorted Z.lt l -> Sorted Z.lt (ins_u x l).
+Proof.
+  induction l as [|y r IH]; intros H; cbn [ins_u].
+  - repeat constructor.
+  - destruct (x <? y) eqn:E1.
+    + constructor; [exact H|constructor; lia].
+    + destruct (x =? y) eqn:E2; [exact H|].
+      inversion H as [|? ? Hs Hh]; subst. constructor; [apply IH; exact Hs|].
+      destruct r as [|z r']; cbn [ins_u].
+      * constructor. lia.
+      * inversion Hh; subst. destruct (x <? z); [constructor; lia|].
+        destruct (x =? z); constructor; lia.
+Qed.
+
+Lemma np_unique_sorted l : StronglySorted Z.lt (np_unique l).
+Proof.
+  apply Sorted_StronglySorted; [intros a b c; lia|].
+  induction l as [|x r IH]; cbn [np_unique fold_right]; [constructor|].
+  apply ins_u_sorted. exact IH.
+Qed.
+
+Lemma sorted_filter (f : Z -> bool) l : StronglySorted Z.lt l -> StronglySorted Z.lt (filter f l).
+Proof.
+  induction 1 as [|x r Hs IH Hf]; cbn [filter]; [constructor|].
+  destruct (f x); [|exact IH]. constructor; [exact IH|].
+  rewrite Forall_forall in *. intros y Hy. apply filter_In in Hy. apply Hf. tauto.
+Qed.
+
+Lemma sorted_lt_NoDup l : StronglySorted Z.lt l -> NoDup l.
+Proof.
+  induction 1 as [|x r Hs IH Hf]; constructor; [|exact IH].
+  intros Hin. rewrite Forall_forall in Hf. specialize (Hf x Hin). lia.
+Qed.
+
+Lemma memZ_In x l : memZ x l = true <-> In x l.
+Proof.
+  unfold memZ. rewrite existsb_exists. split.
+  - intros (y & Hy & E). apply Z.eqb_eq in E. now subst.
+  - intros H. exists x. split; [exact H|apply Z.eqb_refl].
+Qed.
+
+(* ---------- positions ---------- *)
+Lemma in_combine_nth {A B} (l1 : list A) (l2 : list B) a b :
+  In (a, b) (combine l1 l2) <-> exists i, nth_error l1 i = Some a /\ nth_error l2 i = Some b.
+Proof.
+  revert l2. induction l1 as [|x r IH]; intros l2.
+  - cbn. split; [tauto|]. intros (i & H & _). destruct i; discriminate.
+  - destruct l2 as [|y r2].
+    + cbn. split; [tauto|]. intros (i & _ & H). destruct i; discriminate.
+    + cbn [combine In]. rewrite IH. split.
+      * intros [E|(i & H1 & H2)]; [injection E as -> ->; now exists O|now exists (S i)].
+      * intros ([|i] & H1 & H2); cbn in H1, H2; [left; congruence|right; now exists i].
+Qed.
+
+Lemma sel_in a b key v :
+  In v (sel a b key) <-> exists i, nth_error a i = Some key /\ nth_error b i = Some v.
+Proof.
+  unfold sel. rewrite in_map_iff. split.
+  - intros ([k w] & E & Hin). cbn in E. subst w. apply filter_In in Hin. destruct Hin as [Hin Hk].
+    cbn in Hk. apply Z.eqb_eq in Hk. subst k. now apply in_combine_nth.
+  - intros Hi. exists (key, v). split; [reflexivity|]. apply filter_In. split.
+    + now apply in_combine_nth.
+    + cbn. apply Z.eqb_refl.
+Qed.
+
+Lemma in_nth_error {A} (l : list A) x : In x l <-> exists i, nth_error l i = Some x.
+Proof.
+  split; [apply In_nth_error|]. intros (i & H). eapply nth_error_In; exact H.
+Qed.
+
+(* ---------- np.max ---------- *)
+Lemma zmax_ne_ub x r y : In y (x :: r) -> y <= zmax_ne x r.
+Proof.
+  unfold zmax_ne. induction r as [|z r IH]; cbn [fold_right In].
+  - intros [->|[]]. lia.
+  - intros [->|[->|H]]; [specialize (IH (or_introl eq_refl))|..|specialize (IH (or_intror H))]; lia.
+Qed.
+Lemma zmax_ne_in x r : In (zmax_ne x r) (x :: r).
+Proof.
+  unfold zmax_ne. induction r as [|z r IH]; cbn [fold_right]; [now left|].
+  destruct (Z.max_spec z (fold_right Z.max x r)) as [[_ ->]|[_ ->]].
+  - destruct IH as [E|H]; [left; exact E|right; right; exact H].
+  - right; now left.
+Qed.
+Lemma ismax_zmax M x r : IsMax M (x :: r) -> M = zmax_ne x r.
+Proof.
+  intros [Hin Hub]. pose proof (zmax_ne_ub x r M Hin). pose proof (Hub _ (zmax_ne_in x r)). lia.
+Qed.
+
+(* ---------- the append loop ---------- *)
+Lemma app_at_length inv n t : length (app_at inv n t) = length inv.
+Proof. revert n. induction inv as [|l r IH]; intros [|n]; cbn [app_at length]; auto. Qed.
+
+Lemma app_at_nth inv n t c :
+  nth_error (app_at inv n t) c =
+  if (c =? n)%nat then option_map (fun l => l ++ [t]) (nth_error inv c) else nth_error inv c.
+Proof.
+  revert n c. induction inv as [|l r IH]; intros n c.
+  - cbn [app_at]. destruct c, n; cbn; try reflexivity. destruct (c =? n)%nat; reflexivity.
+  - destruct n as [|n]; destruct c as [|c]; cbn [app_at nth_error]; try reflexivity.
+    rewrite IH. reflexivity.
+Qed.
+
+Lemma fold_app_at (L : list Z) t inv c :
+  NoDup L -> (forall n, In n L -> 0 <= n) ->
+  nth_error (fold_left (fun inv n => app_at inv (Z.to_nat n) t) L inv) c =
+  if memZ (Z.of_nat c) L then option_map (fun l => l ++ [t]) (nth_error inv c) else nth_error inv c.
+Proof.
+  revert inv. induction L as [|n L IH]; intros inv Hnd Hpos; [reflexivity|].
+  cbn [fold_left]. inversion Hnd as [|? ? Hnot Hnd']; subst.
+  rewrite IH; [|exact Hnd'|intros; apply Hpos; now right].
+  rewrite app_at_nth. unfold memZ. cbn [existsb]. fold (memZ (Z.of_nat c) L).
+  assert (Hn : 0 <= n) by (apply Hpos; now left).
+  destruct (Nat.eqb_spec c (Z.to_nat n)) as [E|E].
+  - assert (E' : Z.of_nat c = n) by lia. rewrite E'. rewrite Z.eqb_refl. cbn [orb].
+    destruct (memZ n L) eqn:M; [apply memZ_In in M; contradiction|reflexivity].
+  - destruct (Z.eqb_spec (Z.of_nat c) n) as [E'|E']; [exfalso; apply E; lia|]. reflexivity.
+Qed.
+
+Lemma sel_nonneg a b key : (forall v, In v b -> 0 <= v) -> forall v, In v (sel a b key) -> 0 <= v.
+Proof.
+  intros H v Hv. apply sel_in in Hv. destruct Hv as (i & _ & Hi). apply H. eapply nth_error_In; exact Hi.
+Qed.
+
+Definition has_pair (st sc : list Z) (c : nat) (t : Z) : bool := memZ (Z.of_nat c) (np_unique (sel st sc t)).
+
+Lemma mm_fold st sc (U : list Z) inv c :
+  (forall v, In v sc -> 0 <= v) ->
+  nth_error (fold_left (mm_step st sc) U inv) c =
+  option_map (fun l => l ++ filter (has_pair st sc c) U) (nth_error inv c).
+Proof.
+  intros Hpos. revert inv. induction U as [|t U IH]; intros inv.
+  - cbn [fold_left filter]. destruct (nth_error inv c); cbn; [now rewrite app_nil_r|reflexivity].
+  - cbn [fold_left filter]. rewrite IH. unfold mm_step.
+    rewrite fold_app_at.
+    + fold (has_pair st sc c t). destruct (has_pair st sc c t).
+      * destruct (nth_error inv c); cbn [option_map]; [|reflexivity].
+        now rewrite <- app_assoc.
+      * reflexivity.
+    + apply sorted_lt_NoDup, np_unique_sorted.
+    + intros n Hn. apply (proj1 (np_unique_in _ _)) in Hn. eapply sel_nonneg; eauto.
+Qed.
+
+Lemma has_pair_spec st sc c t :
+  has_pair st sc c t = true <-> PairIn st sc (Z.of_nat c) t.
+Proof.
+  unfold has_pair, PairIn. rewrite memZ_In, np_unique_in, sel_in. split; intros (i & A & B); exists i; tauto.
+Qed.
+
+Lemma nth_error_repeat {A} (x : A) n c : (c < n)%nat -> nth_error (repeat x n) c = Some x.
+Proof. revert c. induction n as [|n IH]; intros [|c] H; cbn; try lia; [reflexivity|apply IH; lia]. Qed.
+
+Lemma fold_mm_length st sc U inv : length (fold_left (mm_step st sc) U inv) = length inv.
+Proof.
+  revert inv. induction U as [|t U IH]; intros inv; [reflexivity|].
+  cbn [fold_left]. rewrite IH. unfold mm_step.
+  generalize (np_unique (sel st sc t)). intros L. revert inv. induction L as [|n L IHL]; intros inv; [reflexivity|].
+  cbn [fold_left]. rewrite IHL. apply app_at_length.
+Qed.
+
+(* ---------- nan_idx ---------- *)
+Lemma nan_from_in i m c :
+  In c (nan_from i m) <-> exists k, c = i + Z.of_nat k /\ nth_error m k = Some [].
+Proof.
+  revert i. induction m as [|l r IH]; intros i; cbn [nan_from].
+  - split; [intros []|]. intros (k & _ & H). destruct k; discriminate.
+  - destruct l as [|y l'].
+    + cbn [In]. rewrite IH. split.
+      * intros [<-|(k & -> & H)]; [exists O; split; [lia|reflexivity]|exists (S k); split; [lia|exact H]].
+      * intros ([|k] & -> & H); [left; lia|right; exists k; split; [lia|exact H]].
+    + rewrite IH. split.
+      * intros (k & -> & H). exists (S k). split; [lia|exact H].
+      * intros ([|k] & -> & H); [discriminate|]. exists k. split; [lia|exact H].
+Qed.
+
+Lemma nan_from_sorted i m : StronglySorted Z.lt (nan_from i m).
+Proof.
+  revert i. induction m as [|l r IH]; intros i; cbn [nan_from]; [constructor|].
+  destruct l; [|apply IH]. constructor; [apply IH|].
+  apply Forall_forall. intros c Hc. apply nan_from_in in Hc. destruct Hc as (k & -> & _). lia.
+Qed.
+
+(* ---------- main theorem ---------- *)
+Theorem merge_map_spec st sc :
+  length st = length sc -> sc <> [] -> (forall c, In c sc -> 0 <= c) ->
+  exists mm, merge_map st sc = Some mm /\ MergeMap_Spec st sc mm (nan_from 0 mm).
+Proof.
+  intros Hlen Hne Hpos. destruct sc as [|x r]; [congruence|]. clear Hne.
+  unfold merge_map.
+  replace (existsb (fun c => c <? 0) (x :: r)) with false.
+  2:{ symmetry. apply not_true_is_false. intros H. apply existsb_exists in H. destruct H as (c & Hc & E).
+      specialize (Hpos c Hc). lia. }
+  set (sc := x :: r) in *. set (M := zmax_ne x r).
+  eexists. split; [reflexivity|].
+  set (mm := fold_left _ _ _).
+  assert (HM0 : 0 <= M) by (pose proof (zmax_ne_in x r) as H; apply Hpos in H; exact H).
+  assert (Hentry : forall c, (c < Z.to_nat (M + 1))%nat ->
+            nth_error mm c = Some (filter (has_pair st sc c) (np_unique st))).
+  { intros c Hc. unfold mm. rewrite mm_fold by exact Hpos. rewrite nth_error_repeat by exact Hc. reflexivity. }
+  assert (Hlen_mm : length mm = Z.to_nat (M + 1)).
+  { unfold mm. rewrite fold_mm_length. apply repeat_length. }
+  intros M' HM'. apply ismax_zmax in HM'. fold M in HM'. subst M'.
+  split; [unfold zlen; rewrite Hlen_mm; lia|].
+  assert (Hmem : forall c, 0 <= c <= M -> forall t,
+            In t (filter (has_pair st sc (Z.to_nat c)) (np_unique st)) <-> PairIn st sc c t).
+  { intros c Hc t. rewrite filter_In, np_unique_in, has_pair_spec. rewrite Z2Nat.id by lia. split; [tauto|].
+    intros H. split; [|exact H]. destruct H as (i & _ & Hi). eapply nth_error_In; exact Hi. }
+  split; [|split].
+  - intros c Hc. eexists. split; [apply Hentry; lia|]. split; [apply sorted_filter, np_unique_sorted|].
+    apply Hmem. exact Hc.
+  - apply nan_from_sorted.
+  - intros c. rewrite nan_from_in. split.
+    + intros (k & -> & Hk). rewrite Z.add_0_l.
+      assert (Hk' : (k < Z.to_nat (M + 1))%nat).
+      { rewrite <- Hlen_mm. apply nth_error_Some. congruence. }
+      split; [lia|]. intros Hin. apply in_nth_error in Hin. destruct Hin as (i & Hi).
+      assert (Hsti : exists t, nth_error st i = Some t).
+      { destruct (nth_error st i) eqn:E; [eauto|]. apply nth_error_None in E.
+        assert (i < length sc)%nat by (apply nth_error_Some; congruence). lia. }
+      destruct Hsti as (t & Ht).
+      rewrite Hentry in Hk by exact Hk'. injection Hk as Hk.
+      assert (Hin : In t (filter (has_pair st sc k) (np_unique st))).
+      { replace k with (Z.to_nat (Z.of_nat k)) by lia. apply Hmem; [lia|]. exists i. tauto. }
+      rewrite Hk in Hin. exact Hin.
+    + intros (Hc & Hnot). exists (Z.to_nat c). split; [lia|]. rewrite Hentry by lia.
+      f_equal. destruct (filter _ _) as [|t l] eqn:E; [reflexivity|exfalso].
+      assert (Hin : In t (filter (has_pair st sc (Z.to_nat c)) (np_unique st))) by (rewrite E; now left).
+      apply Hmem in Hin; [|exact Hc]. destruct Hin as (i & Hi & _). apply Hnot. eapply nth_error_In; exact Hi.
+Qed.
+
+(* the guards are exact *)
+Lemma merge_map_empty st : merge_map st [] = None.
+Proof. reflexivity. Qed.
+Lemma merge_map_negative st sc c : In c sc -> c < 0 -> merge_map st sc = None.
+Proof.
+  intros Hin Hc. destruct sc as [|x r]; [destruct Hin|]. unfold merge_map.
+  replace (existsb (fun c => c <? 0) (x :: r)) with true; [reflexivity|].
+  symmetry. apply existsb_exists. exists c. split; [exact Hin|lia].
 Qed.
